@@ -317,6 +317,7 @@ func (m *machine) fail(sig, f string, a ...any) {
 // ---- state dump, mapped back to ids ----
 type dump struct {
 	layers  [][3]int
+	closed  [][2]int // cached layers whose object is closed
 	counts  [][3]int
 	memo    [][3]int
 	pool    [][2]int
@@ -364,6 +365,9 @@ func (m *machine) dump() dump {
 	var d dump
 	for _, e := range st.Layers {
 		d.layers = append(d.layers, [3]int{m.refID(e.Ref), tocID(e.Key), ldID(e.LayerDigest)})
+		if e.Closed {
+			d.closed = append(d.closed, [2]int{m.refID(e.Ref), tocID(e.Key)})
+		}
 		if e.Key != e.TOCDigest {
 			m.fail("", "layer cached under key %s has TOC digest %s", e.Key, e.TOCDigest)
 		}
